@@ -966,6 +966,82 @@ def rule_r19(prog, res):
     res.floor('R19', 'date/time handler overrides', n, 3)
 
 
+# ------------------------------------------------------------------ R20
+def rule_r20(prog, res):
+    res.rule('R20', 'edge literals: an empty element is the empty string / '
+             'byte string for the types that have one; non-finite doubles '
+             'are written INF, -INF, NaN; a naive dateTime enters a pytz zone '
+             'through localize()')
+    x = prog.cls('spyne.protocol.xml:XmlDocument')
+    n = 0
+    for nm in ('unicode_from_element', 'byte_array_from_element'):
+        f = x.methods.get(nm)
+        if f is None:
+            continue
+        n += 1
+        fu = [c for c in calls_in(f.node) if call_name(c) == 'from_unicode'
+              and len(c.args) >= 2]
+        ok = False
+        for c in fu:
+            a = c.args[1]
+            if isinstance(a, ast.Name):
+                for st in walk_no_defs(f.node):
+                    if isinstance(st, ast.Assign) and any(
+                            isinstance(t, ast.Name) and t.id == a.id
+                            for t in st.targets) and isinstance(
+                            st.value, ast.Constant) and st.value.value == '' \
+                            and any('%s is None' % a.id == t and pol
+                                    for t, pol in guardspec.atoms_at(st,
+                                                                     f.node)):
+                        ok = True
+        res.ob('R20', f.where, '%s %s' % (nm, 'substitutes the empty string '
+               'for the None of an empty element' if ok else 'decodes '
+               'element.text as it is'), 'ok' if ok else 'VIOLATED')
+        if not ok:
+            res.finding('R20', 'XmlDocument.%s|empty-element' % nm, f.where,
+                        '%s hands element.text to the decoder unchanged: the '
+                        'empty value, which spyne writes as an empty non-nil '
+                        'element, is read back as None' % nm)
+    res.floor('R20', 'readers of types with an empty value', n, 2)
+    out = prog.cls('spyne.protocol._outbase:OutProtocolBase')
+    f = out.methods.get('double_to_unicode')
+    consts = {r.value.value for r in walk_no_defs(f.node)
+              if isinstance(r, ast.Return) and isinstance(
+                  r.value, ast.Constant)}
+    ok = {'INF', '-INF', 'NaN'} <= consts
+    res.ob('R20', f.where, 'double_to_unicode returns the literals %s for '
+           'non-finite values' % sorted(c for c in consts if isinstance(
+               c, str)), 'ok' if ok else 'VIOLATED')
+    if not ok:
+        res.finding('R20', 'OutProtocolBase.double_to_unicode|non-finite',
+                    f.where, 'non-finite doubles fall through to repr(): '
+                    '"inf", "-inf" and "nan" are not xs:double literals '
+                    '(INF, -INF, NaN)')
+    inb = prog.cls('spyne.protocol._inbase:InProtocolBase')
+    g = inb.methods.get('datetime_from_unicode_iso')
+    reps = [c for c in calls_in(g.node) if call_name(c) == 'replace' and any(
+        k.arg == 'tzinfo' and unparse(k.value) == 'astz' for k in c.keywords)]
+    for c in reps:
+        st = c
+        while not isinstance(st, ast.stmt):
+            st = st._parent
+        atoms = guardspec.atoms_at(st, g.node)
+        ok = any("hasattr(astz, 'localize')" in t and not pol
+                 for t, pol in atoms)
+        where = '%s:%d' % (g.module.relpath, c.lineno)
+        res.ob('R20', where, 'replace(tzinfo=astz) %s' % (
+            'only for zones without localize()' if ok else
+            'for every zone'), 'ok' if ok else 'VIOLATED')
+        if not ok:
+            res.finding('R20', 'InProtocolBase.datetime_from_unicode_iso|'
+                        'pytz-replace', where, 'the as_timezone zone is '
+                        'attached with replace(tzinfo=astz) whatever its '
+                        'kind: for a pytz zone that selects the zone\'s '
+                        'first historical offset (Istanbul: +01:56), so an '
+                        'offset-less literal comes back 1:04:00 off')
+    res.floor('R20', 'zone attachments of naive values', len(reps), 1)
+
+
 def run(prog, res, tier):
     res.run_rule(rule_r1, prog, res)
     res.run_rule(rule_r2_r7, prog, res, tier)
@@ -985,6 +1061,7 @@ def run(prog, res, tier):
     res.run_rule(rule_r17, prog, res)
     res.run_rule(rule_r18, prog, res)
     res.run_rule(rule_r19, prog, res)
+    res.run_rule(rule_r20, prog, res)
 
 
 _I = 'spyne/protocol/_inbase.py'
@@ -993,6 +1070,21 @@ _B = 'spyne/model/binary.py'
 _S = 'spyne/protocol/soap/soap11.py'
 
 MUTANTS = [
+    Mutant('empty-bytes-read-as-none', 'R20', 'fire', 'spyne/protocol/xml.py',
+           in_func('XmlDocument.byte_array_from_element',
+                   "retval = self.from_unicode(cls, s, self.binary_encoding)",
+                   "retval = self.from_unicode(cls, element.text, "
+                   "self.binary_encoding)"), 'empty-element'),
+    Mutant('double-non-finite-repr', 'R20', 'fire',
+           'spyne/protocol/_outbase.py',
+           in_func('OutProtocolBase.double_to_unicode',
+                   "            return 'INF'", "            return repr(value)"),
+           'non-finite'),
+    Mutant('pytz-zone-attached-with-replace', 'R20', 'fire',
+           'spyne/protocol/_inbase.py',
+           in_func('InProtocolBase.datetime_from_unicode_iso',
+                   "if hasattr(astz, 'localize'):", "if False:"),
+           'pytz-replace'),
     Mutant('soap-date-writer-not-overridden', 'R19', 'fire',
            'spyne/protocol/soap/soap11.py',
            in_func('Soap11.__init__',
